@@ -12,12 +12,12 @@ from vf.values import show
 
 PID = "C02"
 
-KINDS = ["method", "static", "classm", "prop_ro", "prop_rw", "prop_wo", "classattr", "instattr", "helper_inst", "helper_callable", "helper_cls", "func_attr"]
+KINDS = ["method", "static", "classm", "prop_ro", "prop_rw", "prop_wo", "classattr", "instattr", "helper_inst", "helper_callable", "helper_cls", "func_attr", "shadow"]
 WHERE = ["base", "sub", "override"]
 EXPOSURE = ["none", "member", "defclass", "otherclass"]
 NAMES = ["m", "_m", "__m__", "__enter__"]
 REQ = ["call", "oneway", "batch", "getattr", "setattr", "getattr_x", "setattr_x", "call_kw"]
-CODE_KINDS = ("method", "static", "classm", "prop_ro", "prop_rw", "prop_wo")
+CODE_KINDS = ("method", "static", "classm", "prop_ro", "prop_rw", "prop_wo", "shadow")
 
 
 def reserved_dunders():
@@ -41,7 +41,7 @@ def specs(quick):
     for kind, where, exp, mname in itertools.product(KINDS, WHERE, EXPOSURE, NAMES):
         if kind in ("classattr", "instattr", "helper_inst", "helper_callable", "helper_cls", "func_attr") and exp == "member":
             continue    # a decorator cannot be put on a plain attribute
-        oneways = (False, True) if kind in ("method", "static", "classm") and mname == "m" else (False,)
+        oneways = (False, True) if kind in ("method", "static", "classm", "shadow") and mname == "m" else (False,)
         for ow in oneways:
             if quick and where == "override" and mname in ("__m__", "__enter__"):
                 continue
@@ -93,7 +93,7 @@ def build(spec, server):
                 except AttributeError as e:
                     refused.append(str(e))
             return x
-        if kind == "method":
+        if kind in ("method", "shadow"):
             return maybe_expose(f)
         if kind == "static":
             return staticmethod(maybe_expose(f))
@@ -140,6 +140,11 @@ def build(spec, server):
     elif kind == "helper_cls":
         hc = helper_class(False)
         inst_attr = lambda: hc
+    elif kind == "shadow":
+        def shadowing(*a, **k):
+            log.append(("shadow", mname, "call"))
+            return "shadow"
+        inst_attr = lambda: shadowing
     elif kind == "func_attr":
         def free(*a, **k):
             log.append(("free", mname, "call"))
@@ -168,6 +173,14 @@ def expected(spec):
     if model_private(mname):
         exposed = False
     md = {"methods": {"ctl"}, "attrs": set(), "oneway": set()}
+    if kind == "shadow":
+        # on this object the name denotes the unexposed function in the instance dict: nothing may run.
+        # the advertised list is computed from the class, where the name is an exposed method
+        if exposed:
+            md["methods"].add(mname)
+            if ow:
+                md["oneway"].add(mname)
+        return False, md
     if exposed:
         if kind in ("method", "static", "classm"):
             md["methods"].add(mname)
@@ -302,7 +315,8 @@ def run_config(unit):
                     if not allowed_here and name != "ctl":
                         if after != before:
                             V("refused-request-changed-object|%s|%s|%s" % (kind, req, namekind), "before %s after %s" % (show(before, 200), show(after, 200)), case)
-                        if req != "oneway" and outcome[0] == "ok" and not (kind == "func_attr" and is_target):
+                        sent_oneway = req == "oneway" or (req in ("call", "call_kw") and isinstance(name, str) and name in proxy._pyroOneway)    # the client adds the flag itself
+                        if not sent_oneway and outcome[0] == "ok" and not (kind == "func_attr" and is_target):
                             V("request-not-refused|%s|%s|%s|%s" % (kind, fexp, req, namekind), "request %s(%r) returned %s" % (req, name, show(outcome[1])), case)
                     if req == "oneway":
                         got_bytes = (proxy._pyroConnection.sock.bytes_in if proxy._pyroConnection else 0) - inbuf_before
@@ -317,6 +331,10 @@ def run_config(unit):
                         V("served-but-not-advertised|method|%s|%s" % (kind, namekind), "call of %r succeeded, metadata %r" % (name, got_md), case)
                     if outcome[0] == "ok" and req.startswith(("getattr", "setattr")) and isinstance(name, str) and "error" not in got_md and name not in got_md["attrs"]:
                         V("served-but-not-advertised|attr|%s|%s" % (kind, namekind), "%s of %r succeeded, metadata %r" % (req, name, got_md), case)
+                    # (d') advertised => served: a name in the advertised method list is not refused as unexposed/private
+                    if req in ("call", "batch") and outcome[0] == "exc" and isinstance(name, str) and "error" not in got_md and name in got_md["methods"] \
+                            and isinstance(outcome[1], AttributeError) and not log:
+                        V("advertised-but-refused|method|%s|%s" % (kind, namekind), "%s of %r refused with %r, metadata %r" % (req, name, outcome[1], got_md), case)
                     # (e) exposed members are actually served by the matching request kind
                     if allowed_here and outcome[0] != "ok":
                         fits = (kind in ("method", "static", "classm") and req in ("call", "batch")) or (kind in ("prop_ro", "prop_rw") and req in ("getattr", "getattr_x")) or (kind in ("prop_rw", "prop_wo") and req in ("setattr", "setattr_x"))
@@ -338,6 +356,121 @@ def run_config(unit):
     return st
 
 
+# ------------------------------------------------------------------------------------------------------------
+# the advertised member list under interruption: (1) inspection of a class fails half way (a class-level descriptor that raises
+# the first k times it is read), (2) two threads inspect a not yet inspected class at the same time (engine T, every schedule)
+def member_class(server, flaky_name=None, failures=0):
+    state = {"left": failures}
+
+    class Flaky(object):
+        def __get__(self, inst, owner):
+            if state["left"] > 0:
+                state["left"] -= 1
+                raise RuntimeError("descriptor not ready")
+            return 5
+    ns = {}
+    for n in ("b", "m", "y"):
+        def f(self):
+            return 1
+        f.__name__ = n
+        ns[n] = server.expose(f)
+
+    def ow(self):
+        return None
+    ns["ow"] = server.expose(server.oneway(ow))
+
+    def hidden(self):
+        return 2
+    ns["hidden"] = hidden
+    ns["p"] = server.expose(property(lambda self: 3))
+    if flaky_name:
+        ns[flaky_name] = Flaky()
+    want = {"methods": {"b", "m", "y", "ow"}, "oneway": {"ow"}, "attrs": {"p"}}
+    return type("Members", (object,), ns), want, state
+
+
+def run_flaky(_unit):
+    from vf.syncworld import SyncWorld
+    from Pyro5 import client, server, core
+    st = Stats()
+    w = SyncWorld(SERIALIZER="serpent")
+    try:
+        d = w.daemon()
+        for flaky_name in ("a_flaky", "c_flaky", "n_flaky", "zz_flaky"):
+            for failures in (1, 2):
+                for asks in (2, 3, 4):
+                    cls, want, state = member_class(server, flaky_name, failures)
+                    obj = cls()
+                    d.register(obj, "members", force=True)
+                    dproxy = client.Proxy("PYRO:%s@h:1" % core.DAEMON_NAME)
+                    hist = []
+                    for i in range(asks):
+                        st.executions += 1
+                        st.points += 1
+                        pending = state["left"] > 0
+                        try:
+                            md = dproxy._pyroInvoke("get_metadata", ["members"], {})
+                            got = {k: set(md[k]) for k in ("methods", "attrs", "oneway")}
+                            hist.append(got)
+                            if got != want:
+                                st.violations.append({"fingerprint": "C02|metadata-wrong-after-failed-inspection|%s" % ("while-failing" if pending else "after"),
+                                                      "what": "ask %d of the member list of a class whose inspection failed %d time(s) at %r: advertised %r, served set is %r (history %r)"
+                                                              % (i, failures, flaky_name, got, want, hist), "replay": {"flaky": [flaky_name, failures, asks]}})
+                        except Exception as x:
+                            hist.append(type(x).__name__)
+                            if not pending:
+                                st.violations.append({"fingerprint": "C02|metadata-error-after-failed-inspection", "what": "%r (history %r)" % (x, hist), "replay": {"flaky": [flaky_name, failures, asks]}})
+                    dproxy._pyroRelease()
+                    st.states.add(("flaky", flaky_name, failures, asks))
+                    oc = "flaky:%s" % (hist,)
+                    st.outcomes[oc] = st.outcomes.get(oc, 0) + 1
+    finally:
+        w.close()
+    return st
+
+
+def make_sched_run(cfg):
+    from vf import sched as S
+    from vf.common import install_shims
+    from vf.explore import HarnessError
+    install_shims()
+    from Pyro5 import server
+    watch = S.watch_functions(server._get_exposed_members, server._reset_exposed_members, server.DaemonObject.get_metadata)
+
+    def run_fn(chooser):
+        cls, want, _ = member_class(server)
+        objs = [cls() for _ in range(cfg["threads"])]
+        sch = S.Scheduler(chooser, watch=watch)
+        sch.install()
+        got = {}
+        violations = []
+        try:
+            def body(i):
+                def f():
+                    r = server._get_exposed_members(objs[i])
+                    got[i] = {k: set(r[k]) for k in ("methods", "attrs", "oneway")}     # what would be serialised into the answer at this moment
+                return f
+            for i in range(cfg["threads"]):
+                sch.spawn(body(i), "inspect-%d" % i)
+            outcome = sch.run()
+            if outcome != "quiescent":
+                raise HarnessError("member inspection schedule ended with %s" % outcome)
+            for i in range(cfg["threads"]):
+                if got.get(i) != want:
+                    violations.append({"fingerprint": "C02|concurrent-inspection-advertises-wrong-member-list", "what": "thread %d was told %r, the class serves %r" % (i, got.get(i), want),
+                                       "replay": {"sched_cfg": cfg}})
+            return {"outcome": repr((outcome, sorted((i, sorted(g["methods"])) for i, g in got.items()))), "violations": violations, "sample": {"cfg": cfg, "points": len(chooser.points)}}
+        finally:
+            sch.teardown()
+            server._reset_exposed_members(cls)
+    return run_fn
+
+
+def sched_task(unit):
+    from vf.common import run_unit
+    return run_unit(make_sched_run, unit)
+
+
 def chunks(lst, n):
     for i in range(0, len(lst), n):
         yield lst[i:i + n]
@@ -348,6 +481,15 @@ def run(ctx):
     total = Stats()
     for st in ctx.pmap(run_config, [(c, ctx.quick) for c in chunks(sp, max(1, len(sp) // 64))]):
         total.merge(st)
+    for st in ctx.pmap(run_flaky, [0]):
+        total.merge(st)
+    from vf.common import explore_parallel
+    scfgs = [{"threads": 2, "p": 1 if ctx.quick else 2, "horizon": 3000}] + ([] if ctx.quick else [{"threads": 3, "p": 1, "horizon": 4000}])
+    sstats = explore_parallel(ctx, sched_task, scfgs, lambda c: c["p"], lambda c: 10 ** 6)
+    total.violations.extend(sstats.violations)
+    total.extra["inspection_schedules_explored"] = sstats.executions
+    total.extra["inspection_schedule_points"] = sstats.points
+    total.extra["inspection_schedule_outcomes"] = len(sstats.outcomes)
     cov = coverage_from_stats(
         total,
         rule="generated class shapes: member kind {instance/static/class method, read-only/read-write/setter-only property, class attribute, instance attribute, attribute "
@@ -355,7 +497,9 @@ def run(ctx):
              "overridden} x exposure {none, on the member, on the defining class, on the other class only} x oneway x member name {public, _private, __dunder__, reserved "
              "dunder}: %d shapes built with the real decorators; per shape ~45 requested names (member name and variants, reserved dunders, dotted paths, unicode "
              "look-alike, empty, non-strings) x {call, oneway, batch, __getattr__, __setattr__} sent past the client-side filter; oracle from the shape specification: "
-             "side-effect log, object snapshot, reply kind, advertised metadata; distinct = distinct shapes" % len(sp),
+             "side-effect log, object snapshot, reply kind, advertised metadata (advertised <=> served); plus the member list of a class whose inspection fails 1-2 times half way "
+             "(4 positions x 2-4 asks), and every schedule (line granularity in _get_exposed_members, preemption bound %d) of 2-3 threads inspecting a fresh class at once: each is told the "
+             "served set; distinct = distinct shapes" % (len(sp), 1 if ctx.quick else 2),
         nontrivial=len(total.states))
     return {"violations": total.violations, "coverage": cov,
             "assumptions": ["an exposed free function stored in an attribute is explored but not judged (the statement does not say whether that 'denotes an exposed method')",
@@ -363,5 +507,12 @@ def run(ctx):
 
 
 def replay(ctx, payload):
+    if "sched_cfg" in payload["replay"]:
+        from vf.explore import Chooser
+        res = make_sched_run(payload["replay"]["sched_cfg"])(Chooser([tuple(c) for c in payload["choices"]]))
+        return {"violations": res["violations"]}
+    if "flaky" in payload["replay"]:
+        st = run_flaky(0)
+        return {"violations": [v for v in st.violations if v["fingerprint"] == payload["fingerprint"]]}
     st = run_config(([tuple(payload["replay"]["spec"])], False))
     return {"violations": [v for v in st.violations if v["fingerprint"] == payload["fingerprint"]], "all": sorted(v["fingerprint"] for v in st.violations)}
